@@ -92,31 +92,31 @@ type valModel struct {
 }
 
 type runner struct {
-	P       *Program
-	chk     *Check
-	tier    string
-	seed    int64
-	items   [][]Item
-	fns     []*ssa.Function
-	mu      sync.Mutex
-	queue   []task
-	out     int // outstanding tasks (queued + running)
-	cond    *sync.Cond
-	stats   []*hStats
-	viols   []violRec
-	known   []string // known-finding keys listed for this property
-	matched map[string]int
+	P             *Program
+	chk           *Check
+	tier          string
+	seed          int64
+	items         [][]Item
+	fns           []*ssa.Function
+	mu            sync.Mutex
+	queue         []task
+	out           int // outstanding tasks (queued + running)
+	cond          *sync.Cond
+	stats         []*hStats
+	viols         []violRec
+	known         []string // known-finding keys listed for this property
+	matched       map[string]int
 	matchedSample map[string]string
-	unmatched int
-	stop    bool
-	sstats  SolverStats
-	fnSeen  map[string]bool
-	ranges  map[string][2]int64
-	axioms  int
-	deadline time.Time
-	timedOut bool
-	workers int
-	timeoutMs int
+	unmatched     int
+	stop          bool
+	sstats        SolverStats
+	fnSeen        map[string]bool
+	ranges        map[string][2]int64
+	axioms        int
+	deadline      time.Time
+	timedOut      bool
+	workers       int
+	timeoutMs     int
 }
 
 func verifDir() string { return envOr("QSYM_VERIF", "/verif") }
@@ -161,7 +161,7 @@ func runCheck(args []string) int {
 		budget = time.Duration(n) * time.Second
 	}
 	r.deadline = t0.Add(budget)
-	if old, _ := filepath.Glob(filepath.Join(verifDir(), "replays", id+"-*.json")); old != nil {
+	if old, _ := filepath.Glob(filepath.Join(envOr("QSYM_REPLAY_DIR", filepath.Join(verifDir(), "replays")), id+"-*.json")); old != nil {
 		for _, f := range old {
 			os.Remove(f)
 		}
@@ -753,8 +753,9 @@ func (r *runner) confirm(n *native) int {
 		}
 		v.Status = "confirmed"
 		sig := h.Name + "|" + v.V.Label + "|" + v.V.Kind
-		os.MkdirAll(filepath.Join(verifDir(), "replays"), 0o755)
-		path := filepath.Join(verifDir(), "replays", fmt.Sprintf("%s-%d.json", r.chk.ID, confirmed))
+		rdir := envOr("QSYM_REPLAY_DIR", filepath.Join(verifDir(), "replays"))
+		os.MkdirAll(rdir, 0o755)
+		path := filepath.Join(rdir, fmt.Sprintf("%s-%d.json", r.chk.ID, confirmed))
 		final.Cmd = fmt.Sprintf("./check %s --replay %s", r.chk.ID, path)
 		data, _ := json.MarshalIndent(final, "", " ")
 		os.WriteFile(path, data, 0o644)
@@ -890,9 +891,10 @@ func (r *runner) writeEvidence(wall float64, validated, mismatches, nviol int, b
 		"wall_s":      wall,
 		"violations":  nviol,
 	}
-	os.MkdirAll(filepath.Join(verifDir(), "evidence"), 0o755)
+	evDir := envOr("QSYM_EVIDENCE_DIR", filepath.Join(verifDir(), "evidence"))
+	os.MkdirAll(evDir, 0o755)
 	data, _ := json.MarshalIndent(ev, "", " ")
-	os.WriteFile(filepath.Join(verifDir(), "evidence", r.chk.ID+".json"), data, 0o644)
+	os.WriteFile(filepath.Join(evDir, r.chk.ID+".json"), data, 0o644)
 }
 
 var _ = big.NewRat
